@@ -83,8 +83,18 @@ class ValueOps:
                     raise Unsupported('sequence without spine')
                 import hashlib
                 boxed = [self.box(e) for e in sv.elems]
-                q = 'q_' + hashlib.sha1('|'.join(boxed).encode()).hexdigest()[:12]
-                st.decls.consts[q] = 'Int'
+                canon = '|'.join(boxed)
+                for bi, b in enumerate(st.decls.bound):
+                    canon = canon.replace(b, '$B%d' % bi)
+                q = 'q_' + hashlib.sha1(canon.encode()).hexdigest()[:12]
+                outer = [b for b in st.decls.bound if any(b in x for x in boxed)]
+                if outer:
+                    st.decls.funs[q] = (tuple('Int' for _ in outer), 'Int')
+                    q = '(%s %s)' % (q, ' '.join(outer))
+                else:
+                    st.decls.consts[q] = 'Int'
+                import os
+                if os.environ.get('PYVC_DEBUG'): print('SPINE', q, boxed)
                 st.assume(mk_eq("(len %s)" % q, int_lit(len(sv.elems))), 'def')
                 for j, b in enumerate(boxed):
                     st.assume(mk_eq("(at %s %d)" % (q, j), b), 'def')
@@ -100,7 +110,7 @@ class ValueOps:
     def seqheap(self):
         st = self.st
         if st.seqh is None:
-            st.seqh = st.decls.const('SEQ', '(Array Int Int)')
+            st.seqh = st.decls.global_const('SEQ', '(Array Int Int)')
         return st.seqh
 
     def box(self, sv):
@@ -150,7 +160,7 @@ class ValueOps:
     def new_ref(self):
         st = self.st
         if st.alloc is None:
-            st.alloc = st.decls.const('alloc', 'Int')
+            st.alloc = st.decls.global_const('alloc', 'Int')
         r = st.alloc
         st.alloc = mk_add(st.alloc, '1')
         return r
@@ -180,8 +190,10 @@ class ValueOps:
             if len(smt.split_top(inner)) == 1:
                 u = inner
         if k == 'str':
-            if assume and 'nestr' in ty and 'str' not in ty:
+            if assume and 'nestr' in ty and 'str' not in ty and 'estr' not in ty:
                 st.assume(mk_not(mk_eq(u, '""')), 'wf')
+            if assume and 'estr' in ty and 'str' not in ty and 'nestr' not in ty:
+                st.assume(mk_eq(u, '""'), 'wf')
             return self.mk_str(u)
         if k == 'int':
             return self.mk_int(u)
@@ -200,6 +212,8 @@ class ValueOps:
             if assume:
                 q = mk_select(self.seqheap(), u)
                 st.assume(mk_le('0', "(len %s)" % q), 'wf')
+                if st.alloc is not None:
+                    st.assume(mk_lt(u, st.alloc), 'wf')
                 self.assume_elem_types(q, self.elem_ty(sv))
             return sv
         if k == 'tuple':
@@ -214,8 +228,41 @@ class ValueOps:
             return sv
         if k == 'dict':
             sub = frozenset(a for a in ty if atom_kind(a) == 'dict')
+            if assume and st.alloc is not None:
+                st.assume(mk_lt(u, st.alloc), 'wf')
             return SV('dict', u, sub)
         raise Unsupported('unbox ' + k)
+
+    def assume_invariants(self, sv):
+        """class invariants of tree objects (assumed well-formedness, DESIGN.md trusted base item 7)"""
+        invs = getattr(self, 'invariants', None)
+        if not invs or getattr(self, '_inv_depth', 0) >= 1:
+            return
+        classes = self.ref_classes(sv.ty)
+        groups = {}
+        for c in classes:
+            mine = []
+            for m in self.repo.mro(c):
+                mine += invs.get(m, [])
+            if mine:
+                groups.setdefault(tuple(mine), []).append(c)
+        if not groups:
+            return
+        key = (sv.term, tuple(sorted(groups)), self.st.ver)
+        if key in self.seq_axioms_done:
+            return
+        self.seq_axioms_done.add(key)
+        self._inv_depth = getattr(self, '_inv_depth', 0) + 1
+        saved = self.st.env
+        try:
+            for texts, cs in groups.items():
+                guard = TRUE if len(cs) == len(classes) else self.cls_in(sv.term, cs)
+                self.st.env = {'self': SV('ref', sv.term, frozenset(('ref', c, True) for c in cs))}
+                for t in texts:
+                    self.st.assume(mk_implies(guard, self.spec_eval_bool(t)), 'wf')
+        finally:
+            self.st.env = saved
+            self._inv_depth -= 1
 
     def assume_elem_types(self, q, ety):
         """quantified typing fact for the elements of a typed sequence (simple element kinds only)"""
@@ -239,6 +286,10 @@ class ValueOps:
         if 'any' in sv.ty:
             raise Unsupported('value of unknown type (any) used where a definite kind is needed')
         kinds = sorted({atom_kind(a) for a in sv.ty})
+        if self.spec_mode and want in kinds:
+            # specifications are total: the operand is read at the kind the operation needs
+            sub = frozenset(a for a in sv.ty if atom_kind(a) == want)
+            return self._unbox_kind(sv.term, want, sub, assume=False)
         if self.spec_mode and len(kinds) > 1 and 'none' in kinds:
             kinds.remove('none')      # specifications talk about the non-None case; selectors are total
         kinds = self.prune_kinds(sv.term, kinds)
@@ -325,6 +376,20 @@ class ValueOps:
                     return True
         return False
 
+    def split_by_eq(self, sv):
+        """fork so that either all or none of the possible classes define __eq__"""
+        if sv.kind != 'ref':
+            return sv
+        classes = self.ref_classes(sv.ty)
+        w = [c for c in classes if self.repo.find_method(c, '__eq__')]
+        wo = [c for c in classes if c not in w]
+        if not w or not wo:
+            return sv
+        d = self.st.decide(2, 'eqclass')
+        grp = w if d == 0 else wo
+        self.st.assume(self.cls_in(sv.term, grp))
+        return SV('ref', sv.term, frozenset(('ref', c, True) for c in grp))
+
     def py_eq(self, a, b):
         """Bool term for python a == b"""
         if a.is_const and b.is_const and a.kind not in ('dict',) and b.kind not in ('dict',):
@@ -337,6 +402,8 @@ class ValueOps:
                 a = self.narrow(a)
             if b.kind == 'val':
                 b = self.narrow(b)
+            a = self.split_by_eq(a)
+            b = self.split_by_eq(b)
             if a.kind == 'ref' and self._has_eq(a):
                 return self.truthy(self.call_method(a, '__eq__', [b], {}, None))
             if b.kind == 'ref' and self._has_eq(b):
@@ -380,11 +447,9 @@ class ValueOps:
         qa, qb = self.seq_of(a), self.seq_of(b)
         if qa == qb:
             return TRUE
-        j = self.st.decls.const('j', 'Int')
-        j = j  # bound variable name
+        j = self.st.decls.bound_var('j')
         body = "(forall ((%s Int)) (=> (and (<= 0 %s) (< %s (len %s))) (= (at %s %s) (at %s %s))))" % (
             j, j, j, qa, qa, j, qb, j)
-        del self.st.decls.consts[j]
         return mk_or(mk_eq(qa, qb), mk_and(mk_eq("(len %s)" % qa, "(len %s)" % qb), body))
 
     # ------------------------------------------------------------ str()
@@ -436,6 +501,8 @@ class ValueOps:
                         tys |= set(x)
             else:
                 tys.add('any')
+        if sv.elems is not None and not sv.elems and not tys:
+            return frozenset()
         return frozenset(tys) or ANY
 
     def seq_at(self, sv, idx, lineno=0, check=True):
@@ -497,8 +564,16 @@ class ValueOps:
         ty = self.attr_type(classes, attr)
         if ty is None:
             raise Unsupported('attribute %s not in schema of %s' % (attr, ','.join(classes)), node)
-        t = mk_select(st.heap_arr(attr), obj.term)
-        return self.unbox(t, ty)
+        arr = st.heap_arr(attr)
+        t = mk_select(arr, obj.term)
+        sv = self.unbox(t, ty)
+        if arr == st.decls.base_heap.get(attr) and getattr(self, 'alloc0', None) is not None:
+            # a value stored in the entry heap refers to an object that existed at entry
+            for k in ('ref', 'list', 'dict'):
+                if k in {atom_kind(a) for a in ty}:
+                    sel = {'ref': 'vr', 'list': 'vl', 'dict': 'vd'}[k]
+                    st.assume(mk_implies(is_tag(k, t), mk_lt("(%s %s)" % (sel, t), self.alloc0)), 'wf')
+        return sv
 
     def write_attr(self, obj, attr, val):
         st = self.st
@@ -509,8 +584,8 @@ class ValueOps:
     def dict_heaps(self):
         st = self.st
         if st.ddom is None:
-            st.ddom = st.decls.const('DDOM', '(Array Int (Array Val Bool))')
-            st.dval = st.decls.const('DVAL', '(Array Int (Array Val Val))')
+            st.ddom = st.decls.global_const('DDOM', '(Array Int (Array Val Bool))')
+            st.dval = st.decls.global_const('DVAL', '(Array Int (Array Val Val))')
         return st.ddom, st.dval
 
     def dict_has(self, d, key):
